@@ -20,3 +20,14 @@ func (h *Handler) VerifSnapshot() ([]VerifConn, int64) {
 	}
 	return out, h.connCount.Load()
 }
+
+// VerifSessionKey returns the raw session key of a tracked connection.
+func (h *Handler) VerifSessionKey(streamID uint64) ([32]byte, bool) {
+	h.mu.RLock()
+	defer h.mu.RUnlock()
+	ac := h.connections[streamID]
+	if ac == nil || ac.sessionKey == nil {
+		return [32]byte{}, false
+	}
+	return ac.sessionKey.Key(), true
+}
